@@ -44,7 +44,7 @@ def gen_case(seed, tier):
     for i in range(n):
         r = rng.random()
         k = rng.choice(KEYS)
-        ver = rng.choice((None, None, None, 1, 2, 3))
+        ver = rng.choice((None, None, None, 1, 2, 3, 0))
         to = rng.choice(TIMEOUTS)
         v = rng.choice(VALUES)
         if r < 0.16:
